@@ -29,7 +29,7 @@ def new_value(rng, key, decl=None):
     kind = KIND.get(key) or {'integer': 'int', 'real': 'real', 'numeric': 'num', 'text': 'text'}[decl]
     if kind == 'text':
         pool = POOL.get(key, ['aa', 'b', 'positive', 'Zq'])
-        return rng.choice(pool + ['X', 'Q1', 'zz'][:2 if key in ('chainID', 'altLoc', 'iCode') else 3]) if key not in ('chainID', 'altLoc', 'iCode') else rng.choice(pool + ['X', 'Q'])
+        return rng.choice(pool + (['X', 'Q'] if key in ('chainID', 'altLoc', 'iCode') else ['X', 'Q1', 'zz']))
     if kind == 'int':
         return rng.choice([0, 1, 2, 3, 7, 12, -4, 250])
     if kind == 'num':
@@ -129,8 +129,7 @@ def gen_history(rng, n, nops):
                 elif kind == 'padcol': colstr = ', '.join(cols) if len(cols) > 1 else cols[0] + ' '
             if nrow == 0:
                 nrow = 1 if malformed else 0
-            block = [[new_value(rng, (cols + cols)[j % len(cols)] if (cols + cols)[j % len(cols)] in KIND else 'x', edecl.get((cols + cols)[j % len(cols)]))
-                      if (cols + cols)[j % len(cols)] in KIND or (cols + cols)[j % len(cols)] in edecl else 0.0 for j in range(ncol)] for _ in range(nrow)]
+            block = [[new_value(rng, cols[j % len(cols)], edecl.get(cols[j % len(cols)])) for j in range(ncol)] for _ in range(nrow)]
             carrier = rng.choice([c for c in CARRIERS if carrier_ok(c, block)])
             op = {'name': 'update', 'columns': colstr, 'values': [jrow(r) for r in block], 'tn': 'nope' if kind == 'badtable' else rng.choice(['ATOM', 'atom']),
                   'kw': jkw(kws), 'carrier': carrier, 'kind': kind}
